@@ -190,7 +190,11 @@ func buildProperty(ww *conversionVisitor, node *sourcewalk.PropertyNode) (*descr
 		if required {
 			return nil, fmt.Errorf("cannot be both required and optional")
 		}
-		fieldDesc.Proto3Optional = gl.Ptr(true)
+		// proto3_optional puts the field into a synthetic oneof, which a
+		// repeated field (array, map) cannot be a member of.
+		if fieldDesc.GetLabel() != descriptorpb.FieldDescriptorProto_LABEL_REPEATED {
+			fieldDesc.Proto3Optional = gl.Ptr(true)
+		}
 	}
 
 	fieldDesc.Name = gl.Ptr(protoFieldName)
